@@ -143,6 +143,10 @@ fn rel_ix(r: Rel) -> usize {
 }
 
 fn judge_ser(r: &Report, carrier: &str, t: &Type, rel: Rel, p: &Probe, st: &MatrixStats, case: &dyn Fn() -> serde_json::Value) {
+    if let Some(c) = &p.corrupt {
+        r.violation(&format!("matrix-ser:list-corrupted:{carrier}"), &format!("after binding {carrier} to {t} the value list is unreadable: {c}"), case());
+        return;
+    }
     if let Some(pn) = &p.panic {
         r.violation(&format!("matrix-ser:panic:{carrier}"), &format!("binding {carrier} to {t} panicked: {pn}"), case());
         return;
@@ -365,6 +369,9 @@ struct Snapshot {
     count: u16,
     iterated: Vec<Option<Option<Vec<u8>>>>, // None = unset, Some(None) = null
 }
+fn try_snapshot(sv: &SerializedValues) -> Result<Snapshot, String> {
+    catch(AssertUnwindSafe(|| snapshot(sv)))
+}
 fn snapshot(sv: &SerializedValues) -> Snapshot {
     let mut bytes = Vec::new();
     sv.write_to_request(&mut bytes);
@@ -450,7 +457,13 @@ fn check_rollback_case(r: &Report, prefix: &[usize], kind: &str, want_root: &str
         return;
     }
     let res = catch(AssertUnwindSafe(|| f(&mut sv)));
-    let after = snapshot(&sv);
+    let after = match try_snapshot(&sv) {
+        Ok(a) => a,
+        Err(p) => {
+            r.violation(&format!("rollback:list-corrupted:{kind}"), &format!("after a failed add ({kind}) on a list of {} values the list cannot be read back: {p}", prefix.len()), case);
+            return;
+        }
+    };
     match res {
         Err(p) => {
             r.violation(&format!("rollback:panic:{kind}"), &format!("failing add ({kind}) panicked: {p} at {}", vcore::last_panic_location()), case);
@@ -545,8 +558,11 @@ fn check_too_many(r: &Report) {
     for (k, f) in attempts {
         r.eval(1);
         let res = catch(AssertUnwindSafe(|| f(&mut sv)));
-        let after = snapshot(&sv);
         let case = json!({"leg": "rollback", "kind": format!("at-65535:{k}")});
+        let Ok(after) = try_snapshot(&sv) else {
+            r.violation("rollback:too-many:list-corrupted", &format!("add ({k}) on a full list left it unreadable"), case);
+            return;
+        };
         match res {
             Err(p) => r.violation("rollback:too-many:panic", &format!("add #{k} on a full list panicked: {p}"), case),
             Ok(Ok(())) => r.violation("rollback:too-many:accepted", &format!("a 65536th value ({k}) was accepted; element_count={}, cells={}", after.count, after.iterated.len()), case),
@@ -589,7 +605,10 @@ pub fn run_rollback(r: &Report) {
             let b0 = snapshot(&sv);
             let _ = catch(AssertUnwindSafe(|| (kinds[k1].2)(&mut sv)));
             let _ = catch(AssertUnwindSafe(|| (kinds[k2].2)(&mut sv)));
-            let b1 = snapshot(&sv);
+            let Ok(b1) = try_snapshot(&sv) else {
+                r.violation(&format!("rollback:list-corrupted:{}", kinds[k2].0), &format!("two failed adds ({}, {}) left the list unreadable", kinds[k1].0, kinds[k2].0), json!({"leg": "rollback", "kind": format!("{}+{}", kinds[k1].0, kinds[k2].0), "prefix": [2]}));
+                continue;
+            };
             if b0.bytes != b1.bytes || b0.count != b1.count || b0.iterated != b1.iterated {
                 r.violation(&format!("rollback:state-changed-after-two:{}", kinds[k2].0), &format!("two failed adds ({}, {}) changed the list", kinds[k1].0, kinds[k2].0), json!({"leg": "rollback", "kind": format!("{}+{}", kinds[k1].0, kinds[k2].0), "prefix": [2]}));
             } else {
@@ -602,6 +621,178 @@ pub fn run_rollback(r: &Report) {
     r.set_exhaustive(true);
     r.assume("a > 2 GiB value cannot be materialised; the size-overflow path is simulated by a SerializeValue impl that appends bytes (directly and through nested sub-writers) and then returns an error");
     r.sample(json!({"prefix": ["int 1", "list<int> [1,2]"], "failing": "vector-variable-2nd-element", "then": "int 0x11223344"}));
+}
+
+
+// ------------------------------------------------------------------------------------------------
+// rows: whole-row binding (`SerializedValues::from_serializable`) - count always equals encoded cells
+
+use scylla_cql_core::frame::response::result::{ColumnSpec, TableSpec};
+use scylla_cql_core::serialize::row::{RowSerializationContext, SerializeRow};
+use scylla_cql_core::value::MaybeUnset;
+use std::collections::{BTreeMap, HashMap};
+
+type RowCell = MaybeUnset<Option<CqlValue>>;
+
+fn row_value_kinds() -> Vec<(&'static str, Option<Type>, RowCell)> {
+    // (label, shape of the value or None for null/not-set, the cell)
+    vec![
+        ("int", Some(t_int()), MaybeUnset::Set(Some(CqlValue::Int(7)))),
+        ("text", Some(t_text()), MaybeUnset::Set(Some(CqlValue::Text("ab".into())))),
+        ("list<int>", Some(list_of(t_int())), MaybeUnset::Set(Some(CqlValue::List(vec![CqlValue::Int(1), CqlValue::Int(2)])))),
+        ("list<text>", Some(list_of(t_text())), MaybeUnset::Set(Some(CqlValue::List(vec![CqlValue::Int(1), CqlValue::Text("x".into())])))), // 2nd element is text
+        ("null", None, MaybeUnset::Set(None)),
+        ("unset", None, MaybeUnset::Unset),
+    ]
+}
+
+fn ref_cell(kind: usize, t: &Type) -> Vec<u8> {
+    let v = match kind {
+        0 => Value::Int(7),
+        1 => Value::Text("ab".into()),
+        2 => Value::List(vec![Value::Int(1), Value::Int(2)]),
+        4 => Value::Null,
+        5 => Value::Unset,
+        _ => unreachable!(),
+    };
+    refv::encode(t, &v).unwrap().framed()
+}
+
+fn judge_row(r: &Report, form: &str, cols: &[usize], vals: &[usize], names_ok: bool, res: Result<Result<SerializedValues, SerializationError>, String>) {
+    let col_types = [t_int(), t_text(), list_of(t_int())];
+    let kinds = row_value_kinds();
+    let case = || json!({"leg": "rows", "form": form, "columns": cols, "values": vals, "names_ok": names_ok});
+    let fits = |k: usize, c: usize| match &kinds[k].1 {
+        None => true,
+        Some(vt) => *vt == col_types[c],
+    };
+    let must_accept = names_ok && cols.len() == vals.len() && cols.iter().zip(vals).all(|(c, k)| fits(*k, *c));
+    match res {
+        Err(p) => r.violation(&format!("rows:panic:{form}"), &format!("binding a row ({form}) panicked: {p}"), case()),
+        Ok(Err(e)) => {
+            if must_accept {
+                r.violation(&format!("rows:good-row-refused:{form}"), &format!("a row whose every value fits its column was refused: {e}"), case());
+            } else {
+                r.counters.add("rows_refused_as_expected", 1);
+            }
+        }
+        Ok(Ok(sv)) => {
+            if !must_accept {
+                r.violation(&format!("rows:mismatch-accepted:{form}"), &format!("a row with a value that does not fit its column (or wrong arity / names) was accepted; {} cells", sv.element_count()), case());
+                return;
+            }
+            let snap = snapshot(&sv);
+            let mut expect = Vec::new();
+            for (c, k) in cols.iter().zip(vals) {
+                expect.extend(ref_cell(*k, &col_types[*c]));
+            }
+            if snap.count as usize != cols.len() || snap.iterated.len() != cols.len() || snap.bytes[2..] != expect[..] {
+                r.violation(&format!("rows:count-or-bytes:{form}"), &format!("row of {} columns: element_count={}, iter().count()={}, {} bytes vs reference {}", cols.len(), snap.count, snap.iterated.len(), snap.bytes.len() - 2, expect.len()), case());
+                return;
+            }
+            r.nontrivial(1);
+        }
+    }
+}
+
+pub fn run_rows(r: &Report) {
+    let col_types = [t_int(), t_text(), list_of(t_int())];
+    let kinds = row_value_kinds();
+    let table = TableSpec::owned("ks".into(), "t".into());
+    // all column lists of length 0..3 x all value lists of length 0..3 (arity mismatch included)
+    let mut col_lists: Vec<Vec<usize>> = vec![vec![]];
+    let mut layer: Vec<Vec<usize>> = vec![vec![]];
+    for _ in 0..3 {
+        let mut next = Vec::new();
+        for p in &layer {
+            for c in 0..col_types.len() {
+                let mut q = p.clone();
+                q.push(c);
+                next.push(q);
+            }
+        }
+        col_lists.extend(next.iter().cloned());
+        layer = next;
+    }
+    let mut val_lists: Vec<Vec<usize>> = vec![vec![]];
+    let mut layer: Vec<Vec<usize>> = vec![vec![]];
+    for _ in 0..3 {
+        let mut next = Vec::new();
+        for p in &layer {
+            for k in 0..kinds.len() {
+                let mut q = p.clone();
+                q.push(k);
+                next.push(q);
+            }
+        }
+        val_lists.extend(next.iter().cloned());
+        layer = next;
+    }
+    r.counters.add("row_column_lists", col_lists.len() as u64);
+    r.counters.add("row_value_lists", val_lists.len() as u64);
+    let work: Vec<(usize, usize)> = (0..col_lists.len()).flat_map(|c| (0..val_lists.len()).map(move |v| (c, v))).collect();
+    let (cl, vl, kinds_ref, table_ref) = (&col_lists, &val_lists, &kinds, &table);
+    vcore::par::for_each(r.args.jobs, 64, work.into_iter(), |(ci, vi)| {
+        let cols = &cl[ci];
+        let vals = &vl[vi];
+        // arity mismatch only for |difference| <= 1 and a few shapes, to keep the product small but present
+        if cols.len() != vals.len() && (cols.len().abs_diff(vals.len()) > 1 || vals.iter().any(|k| *k != 0)) {
+            return;
+        }
+        let specs: Vec<ColumnSpec<'static>> = cols.iter().enumerate().map(|(i, c)| ColumnSpec::owned(format!("c{i}"), column_type(&col_types[*c]), table_ref.clone())).collect();
+        let ctx = RowSerializationContext::from_specs(&specs);
+        let cells: Vec<RowCell> = vals.iter().map(|k| kinds_ref[*k].2.clone()).collect();
+        let run = |row: &dyn Fn() -> Result<SerializedValues, SerializationError>| catch(AssertUnwindSafe(row));
+        r.eval(1);
+        judge_row(r, "Vec<T>", cols, vals, true, run(&|| SerializedValues::from_serializable(&ctx, &cells)));
+        r.eval(1);
+        judge_row(r, "&[T]", cols, vals, true, run(&|| SerializedValues::from_serializable(&ctx, &cells.as_slice())));
+        // tuples
+        match cells.len() {
+            0 => {
+                r.eval(1);
+                judge_row(r, "()", cols, vals, true, run(&|| SerializedValues::from_serializable(&ctx, &())));
+            }
+            1 => {
+                r.eval(1);
+                judge_row(r, "(T,)", cols, vals, true, run(&|| SerializedValues::from_serializable(&ctx, &(cells[0].clone(),))));
+            }
+            2 => {
+                r.eval(1);
+                judge_row(r, "(T,T)", cols, vals, true, run(&|| SerializedValues::from_serializable(&ctx, &(cells[0].clone(), cells[1].clone()))));
+            }
+            _ => {
+                r.eval(1);
+                judge_row(r, "(T,T,T)", cols, vals, true, run(&|| SerializedValues::from_serializable(&ctx, &(cells[0].clone(), cells[1].clone(), cells[2].clone()))));
+            }
+        }
+        // by-name maps: right names (in reverse insertion order), then one wrong name
+        if cols.len() == vals.len() {
+            let hm: HashMap<String, RowCell> = cells.iter().enumerate().rev().map(|(i, c)| (format!("c{i}"), c.clone())).collect();
+            r.eval(1);
+            judge_row(r, "HashMap<String,T>", cols, vals, true, run(&|| SerializedValues::from_serializable(&ctx, &hm)));
+            let names: Vec<String> = (0..cells.len()).map(|i| format!("c{i}")).collect();
+            let bm: BTreeMap<&str, RowCell> = cells.iter().enumerate().map(|(i, c)| (names[i].as_str(), c.clone())).collect();
+            r.eval(1);
+            judge_row(r, "BTreeMap<&str,T>", cols, vals, true, run(&|| SerializedValues::from_serializable(&ctx, &bm)));
+            if !cells.is_empty() {
+                let mut wrong = hm.clone();
+                let v0 = wrong.remove("c0").unwrap();
+                wrong.insert("zz".into(), v0);
+                r.eval(1);
+                judge_row(r, "HashMap<String,T>", cols, vals, false, run(&|| SerializedValues::from_serializable(&ctx, &wrong)));
+                let mut extra = hm.clone();
+                extra.insert("zz".into(), MaybeUnset::Set(None));
+                r.eval(1);
+                judge_row(r, "HashMap<String,T>", cols, vals, false, run(&|| SerializedValues::from_serializable(&ctx, &extra)));
+            }
+        }
+    });
+    r.set_rule("E-ENUM rows. Every column list of length 0..3 over {int, text, list<int>} x every value list of length 0..3 over {int, text, list<int>, a list whose 2nd element is text, null, not-set} (equal arity: all; arity off by one: all-int values) bound as Vec<T>, &[T], Rust tuple, HashMap<String,T> and BTreeMap<&str,T> (right names, one wrong name, one extra name) through SerializedValues::from_serializable: accepted iff every value fits its column and arity/names match; on success element_count() == iter().count() == number of columns and the bytes are the concatenated reference cells. distinct_nontrivial = accepted rows verified.");
+    r.set_exhaustive(true);
+    r.sample(json!({"columns": ["int", "list<int>"], "row": "HashMap<String,_> {c1: [1,2], c0: 7}", "expected": "accepted; 2 cells; bytes = reference cells in column order"}));
+    r.sample(json!({"columns": ["int", "text"], "row": "(7, [1, 'x'])", "expected": "refused"}));
+    let _ = SerializeRow::is_empty(&());
 }
 
 pub fn replay(r: &Report, case: &serde_json::Value) {
@@ -622,6 +813,10 @@ pub fn replay(r: &Report, case: &serde_json::Value) {
                 println!("replaying matrix cell: carrier {name} x column {t}; expected ser {:?} de {:?}", (e.rel_ser)(&t), e.rel_de.map(|f| f(&t)));
                 matrix_cell_static(r, e, &t, &ct, &st);
             }
+        }
+        Some("rows") => {
+            println!("replaying the rows leg (small; the case is {case})");
+            run_rows(r);
         }
         Some("rollback") => {
             let kinds = failure_kinds();
